@@ -65,6 +65,8 @@ class _Impl:
         self.DW = DigitalWaveform
         props = {} if prop is None else {LN: prop}
         self.wf = DigitalWaveform(2, n, extended_properties=props)
+        self.init_dict = props  # the caller's own mapping: the waveform holds a copy
+        self.sibling = None
         self.n = n
         self.twin = None
         self.handles = {}
@@ -156,6 +158,23 @@ class _Impl:
             elif kind == "signals":
                 wf.signals
                 len(wf.signals)
+            elif kind in ("sibling_name", "sibling_prop", "sibling_del"):
+                # a second waveform built from the SAME plain mapping the caller passed to the first one: each holds
+                # its own copy, so nothing done to the sibling reaches this waveform
+                if self.sibling is None:
+                    self.sibling = self.DW(1, self.n, extended_properties=self.init_dict)
+                if kind == "sibling_name" and self.n:
+                    self.sibling.signals[op["m"] % self.n].name = "sib%d" % op["m"]
+                elif kind == "sibling_prop":
+                    self.sibling.extended_properties[LN] = "p%d, q" % op["m"]
+                else:
+                    self.sibling.extended_properties.pop(LN, None)
+            elif kind in ("caller_set", "caller_del"):
+                # the caller goes on using the mapping it passed in
+                if kind == "caller_set":
+                    self.init_dict[LN] = "mine%d" % op["m"]
+                else:
+                    self.init_dict.pop(LN, None)
             return ["none"]
         if k == "lookup":
             s = wf.signals[op["name"]]
@@ -332,7 +351,7 @@ def step_sigs(pairs):
 
 def _rand_op(rng, n, known):
     ri = lambda: rng.randrange(-n, n + 1) if n else rng.choice([0, 1])
-    k = rng.choice(["read"] * 6 + ["write"] * 4 + ["writebad"] + ["setprop"] * 3 + ["delprop"] * 2 + ["merge"] * 3 + ["other"] * 2
+    k = rng.choice(["read"] * 6 + ["write"] * 4 + ["writebad"] + ["setprop"] * 3 + ["delprop"] * 2 + ["merge"] * 3 + ["other"] * 3
                    + ["lookup"] * 3 + ["pickle"] * 3)
     if k == "read":
         return {"op": k, "i": ri(), "via": rng.choice(["coll", "coll", "keep", "handle", "handle"])}
@@ -355,7 +374,8 @@ def _rand_op(rng, n, known):
         return {"op": k, "v": v, "samples": rng.choice([0, 1, 3]), "how": rng.choice(["one", "one", "list"]),
                 "extra": rng.random() < 0.3}
     if k == "other":
-        return {"op": k, "kind": rng.choice(["load", "count", "chan", "delchan", "cap", "data", "repr", "eq", "signals"]),
+        return {"op": k, "kind": rng.choice(["load", "count", "chan", "delchan", "cap", "data", "repr", "eq", "signals", "sibling_name",
+                                              "sibling_prop", "sibling_del", "caller_set", "caller_del"]),
                 "m": rng.randrange(0, 4)}
     if k == "lookup":
         name = rng.choice(known) if (known and rng.random() < 0.75) else _mk_name(rng)
